@@ -195,6 +195,17 @@ func (d *vtSio) requests(idx []int, in int, last func()) []interface{} {
 				}})
 		case "rem":
 			msgs = append(msgs, map[string]interface{}{"to": TimersMachine, "cancelTimer": vtIdName(op.Id)})
+		case "bad":
+			// a request the timers machine has to reject (unparsable delay) under an id that may
+			// belong to a pending timer: it must change nothing (the log skips the request itself;
+			// the snapshot after it is compared with the model's pending set)
+			msgs = append(msgs, map[string]interface{}{
+				"to": TimersMachine,
+				"makeTimer": map[string]interface{}{
+					"id":  vtIdName(op.Id),
+					"in":  "soon",
+					"msg": map[string]interface{}{"to": "drv", "fire": i},
+				}})
 		}
 		msgs = append(msgs, func(c *Crew) interface{} {
 			_, failed := c.Machines[TimersMachine].State.Bs["error"]
